@@ -20,7 +20,12 @@ from harness import textcheck as TC
 from props import _text as X
 
 PROPS = ["Octave.Props.C20", "Octave.Props.C20parser"]
-CLASSES = {}
+def kf_many_duplicates_of_one_key(case) -> bool:
+    """C20N1: the size-scaled family whose lines all assign the SAME key at one level (n duplicates of one key)."""
+    return case.get("family") == "duplicate_keys"
+
+
+CLASSES = {"kf_many_duplicates_of_one_key": kf_many_duplicates_of_one_key}
 
 
 def ctl_chunk(texts):
@@ -49,8 +54,10 @@ FAMILIES = {
     "many_lines": lambda n: "".join(f"K{i}::v{i}\n" for i in range(n)),
     "many_aliases": lambda n: "".join(f"K{i}::x->y\n" for i in range(n)),
     "many_fences_with_tabs": lambda n: "".join(f"Z{i}::\n```\n\ta\tb\n```\n" for i in range(n)),
-    "long_digits": lambda n: "K::" + "7" * min(n, 4000) + "\n" + "".join("A::1\n" for _ in range(n)),
-    "deep_indent": lambda n: "".join(" " * (2 * i) + f"B{i}:\n" for i in range(min(n, 90))) + "".join("K::1\n" for _ in range(n)),
+    "long_digits": lambda n: "K::" + "7" * min(n, 4000) + "\n" + "".join(f"A{i}::1\n" for i in range(n)),
+    "deep_indent": lambda n: "".join(" " * (2 * i) + f"B{i}:\n" for i in range(min(n, 90))) + "".join(f"K{i}::1\n" for i in range(n)),
+    # n assignments of the SAME key at one level: every duplicate-key warning lists all earlier lines (finding C20N1)
+    "duplicate_keys": lambda n: "A::1\n" * n,
     "wide_list": lambda n: "K::[" + ",".join(str(i) for i in range(n)) + "]\n",
     "many_comments": lambda n: "".join(f"// c{i}\nK{i}::1\n" for i in range(n)),
     "long_string": lambda n: 'K::"' + "ab\\\\n" * n + '"\n',
@@ -223,6 +230,19 @@ def run(ctx: vlib.Ctx):
             if max(ratios) > 2.3 and c[3] > 20000:
                 X.classify(ctx, findings, CLASSES, {"family": row["family"], "entry": fn, "text": FAMILIES[row["family"]](3)},
                            f"{fn} cost grows super-linearly on family {row['family']}: line events {c} (ratios {[round(r, 2) for r in ratios]})", "scaling:" + row["family"])
+    # known finding C20N1: replayed on a deterministic measure of the work done — the total number of line numbers carried by the
+    # duplicate-key warnings for n, 2n, 4n duplicates of one key (exactly quadratic while the finding is open)
+    for f in findings:
+        if f["cls"] == "kf_many_duplicates_of_one_key":
+            from octave_mcp.core.parser import parse_with_warnings
+            sizes = []
+            for n in (100, 200, 400):
+                _d, ws = parse_with_warnings(FAMILIES["duplicate_keys"](n))
+                sizes.append(sum(len(w.get("all_lines") or []) for w in ws if isinstance(w, dict) and w.get("subtype") == "duplicate_key"))
+            if sizes[0] > 0 and sizes[2] / sizes[1] > 3.0 and sizes[1] / sizes[0] > 3.0:
+                ctx.known_reproduced.append((f, f"line numbers carried by the warnings for 100/200/400 duplicates: {sizes}"))
+            else:
+                ctx.notes.append(f"known finding {f['id']} no longer reproduces on its witness ({sizes})")
     # tools never raise
     try:
         tt = importlib.import_module("harness.tools_total")
